@@ -278,8 +278,26 @@ def _md_case(draw, feat: frozenset, kind: str = "md"):
     return {"kind": kind, "text": fm + text, "opts": o}
 
 
+@st.composite
+def _hazard_case(draw):
+    """A paragraph of filler words and block-marker look-alikes in a container, at every width around its length: the words
+    that get escaped at a wrapped line start (and so change width between the first and the second run)."""
+    from vf.props import c01
+
+    n = draw(st.integers(2, 9))
+    words = [draw(st.sampled_from(c01.FILL)) if draw(st.integers(0, 2)) else draw(st.sampled_from(c01.HAZARDS)) for _ in range(n)]
+    if draw(st.booleans()):
+        words[0] = draw(st.sampled_from(c01.FILL))
+    ii, _si = c01.CONTEXTS[draw(st.sampled_from(sorted(c01.CONTEXTS)))]
+    text = ii + " ".join(words) + "\n"
+    o = draw(opts.md_options())
+    o["width"] = draw(st.integers(1, len(text) + 2))
+    return {"kind": "md", "text": text, "opts": o}
+
+
 def shard_work(ctx: Ctx) -> None:
     feat = docdomain.features("C02", ctx)
+    ctx.run_hypothesis("hazard_words_every_width", _hazard_case(), ctx.n(6000, 300000))
     ctx.run_hypothesis("markdown", _md_case(feat), ctx.n(6000, 300000))
     ctx.run_hypothesis("plaintext", _plaintext_case(), ctx.n(2000, 60000))
     if not ctx.quick:
